@@ -662,7 +662,7 @@ Ltac ends_wrap :=
       destruct X; try contradiction; exact I
   end.
 
-Lemma ends_convert_module bd y ctx isb fn defs : ends (convert_module bd y ctx isb fn defs).
+Lemma ends_convert_module bd y ctx isb fn root defs : ends (convert_module bd y ctx isb fn root defs).
 Proof.
   unfold convert_module.
   apply ends_rbind; [unfold name_ok; destruct (ym_name y); [destruct (is_prefix _ _)|]; exact I|intros _ _].
@@ -676,7 +676,7 @@ Proof.
   destruct (ym_tasks y); [|exact I]. apply ends_rmap. ends_wrap.
 Qed.
 
-Lemma ends_convert_context y ib fn : ends (convert_context y ib fn).
+Lemma ends_convert_context y ib fn root : ends (convert_context y ib fn root).
 Proof.
   unfold convert_context. cbv zeta.
   apply ends_rbind; [destruct (yc_tasks y); [apply ends_rmap; ends_wrap|exact I]|intros tasks _].
@@ -706,10 +706,10 @@ Lemma ends_add_modules bd b d mods isb defs : ends (add_modules bd b d mods isb 
 Proof.
   unfold add_modules.
   apply (ends_fold (fun b0 y => fold_left (fun acc c => rbind acc (fun b1 =>
-                       rbind (convert_module bd y c isb (ld_file d) defs) (add_module b1)))
+                       rbind (convert_module bd y c isb (ld_file d) (ld_root d) defs) (add_module b1)))
                        (contexts_of (ym_context y)) (Ok b0))); [|exact I].
   intros a y _.
-  apply (ends_fold (fun b1 c => rbind (convert_module bd y c isb (ld_file d) defs) (add_module b1))); [|exact I].
+  apply (ends_fold (fun b1 c => rbind (convert_module bd y c isb (ld_file d) (ld_root d) defs) (add_module b1))); [|exact I].
   intros a0 c _. apply ends_rbind; [apply ends_convert_module|intros; apply ends_add_module].
 Qed.
 
@@ -717,7 +717,9 @@ Lemma load_files_nopanic : forall fuel (t : ytree) pending pos docs, nopanic (lo
 Proof.
   induction fuel as [|f IH]; intros t pending pos docs; [exact I|].
   rewrite load_files_S. destruct (nth_error pending pos) as [inc|]; [|exact I].
-  destruct (alookup (fst inc) t); [apply IH|exact I].
+  destruct (alookup (fst inc) t) as [ds0|]; [|exact I].
+  pose proof (step_pending_okerr t inc (length docs) ds0 pending) as Hoe.
+  destruct (step_pending t inc (length docs) ds0 pending); try exact I; [apply IH|destruct Hoe].
 Qed.
 
 (* the loader ends on every tree of documents: with a bag or with an error value *)
@@ -726,15 +728,15 @@ Proof.
   unfold load.
   apply ends_rbind.
   { pose proof (loader_worklist_terminates t pf) as NF.
-    pose proof (load_files_nopanic (S (S (length t * 8))) t [(pf, None)] 0 []) as NP.
-    destruct (load_files _ t [(pf, None)] 0 []); try exact I; [contradiction|congruence]. }
+    pose proof (load_files_nopanic (load_fuel t) t [(pf, (None, None))] 0 []) as NP.
+    destruct (load_files _ t [(pf, (None, None))] 0 []); try exact I; [contradiction|congruence]. }
   intros [docs fs] _.
   apply ends_rbind.
   { apply (ends_fold (fun (p : bag * list module) d =>
              let '(b, cms) := p in
              fold_left (fun acc lb => rbind acc (fun '(b, cms) =>
                 fold_left (fun acc y => rbind acc (fun '(b, cms) =>
-                   rbind (convert_context y (snd lb || yc_is_builder y) (ld_file d)) (fun '(c, m) =>
+                   rbind (convert_context y (snd lb || yc_is_builder y) (ld_file d) (ld_root d)) (fun '(c, m) =>
                    rbind (add_context b c) (fun b' => Ok (b', cms ++ [m])))))
                   (odflt [] (fst lb)) (Ok (b, cms))))
                [(d_contexts (ld_doc d), false); (d_builders (ld_doc d), true)] (Ok (b, cms)))); [|exact I].
@@ -742,13 +744,13 @@ Proof.
     apply (ends_fold (fun (p : bag * list module) (lb : option (list yctx) * bool) =>
              let '(b, cms) := p in
              fold_left (fun acc y => rbind acc (fun '(b, cms) =>
-                   rbind (convert_context y (snd lb || yc_is_builder y) (ld_file d)) (fun '(c, m) =>
+                   rbind (convert_context y (snd lb || yc_is_builder y) (ld_file d) (ld_root d)) (fun '(c, m) =>
                    rbind (add_context b c) (fun b' => Ok (b', cms ++ [m])))))
                   (odflt [] (fst lb)) (Ok (b, cms)))); [|exact I].
     intros [b1 cms1] lb _.
     apply (ends_fold (fun (p : bag * list module) y =>
              let '(b, cms) := p in
-             rbind (convert_context y (snd lb || yc_is_builder y) (ld_file d)) (fun '(c, m) =>
+             rbind (convert_context y (snd lb || yc_is_builder y) (ld_file d) (ld_root d)) (fun '(c, m) =>
              rbind (add_context b c) (fun b' => Ok (b', cms ++ [m]))))); [|exact I].
     intros [b2 cms2] y _.
     apply ends_rbind; [apply ends_convert_context|intros [c m] _].
